@@ -1,5 +1,6 @@
 """Utilities for batch processing of state spaces."""
 
+import operator
 from typing import Tuple
 
 import jax
@@ -52,6 +53,8 @@ class BatchProcessor:
 
         self.n_states = n_states
         self.state_dim = state_dim
+        # NumPy integers are accepted; plain ints keep the (signed) arithmetic below exact
+        max_batch_size = operator.index(max_batch_size)
 
         # Setup device information
         self.n_devices = (
